@@ -222,6 +222,10 @@ func exSpell(r *rng, from, to string, tokens []string) string {
 	case k < 15:
 		return tu.Path + frag // root-relative: absolute path without scheme
 	}
+	if tu.Scheme == "file" && r != nil && r.chance(1, 4) {
+		// a local file has no query: "file:///x.json?v=1" and "file:///x.json?" are spellings of file:///x.json
+		return to + r.pick([]string{"?v=1", "?"}) + frag
+	}
 	return to + frag
 }
 
@@ -722,6 +726,7 @@ func exBoundedSample(r *rng, k int, tier string) []*exGraph {
 func exGraphs(r *rng, n int, tier string, ids bool) []*exGraph {
 	var out []*exGraph
 	seen := map[string]bool{}
+	idGraphs := 0
 	add := func(g *exGraph) {
 		if k := g.key(); !seen[k] {
 			seen[k] = true
@@ -740,7 +745,13 @@ func exGraphs(r *rng, n int, tier string, ids bool) []*exGraph {
 		default:
 			o.Cycles = 4 + r.intn(5)
 		}
-		o.IDs = ids && r.chance(1, 10)
+		// graphs with schema ids can run into the known non-termination F10: each costs time-outs, so their number is capped
+		// (the cap is not reached by the quick tier)
+		wantID := r.chance(1, 10)
+		o.IDs = ids && wantID && idGraphs < 25
+		if o.IDs {
+			idGraphs++
+		}
 		add(exRandomGraph(r.fork(uint64(i)), o))
 	}
 	for _, g := range exBoundedSample(r.fork(0xb0), n/2, tier) {
@@ -889,9 +900,8 @@ func exRepair(g *exGraph) *exGraph {
 		exSetRef(s[b.Doc], b.Path, b.OrigRef)
 	}
 	for u := range f.Docs {
-		if m, ok := s[u].(map[string]interface{}); ok {
-			delete(m, "x-vals")
-		}
+		// the `x-vals` member an ill-typed fault added stays: a whole-document reference shows it, and the repaired graph must
+		// differ from the faulty one in the broken references only
 		b, _ := json.Marshal(s[u])
 		f.Docs[u] = b
 	}
